@@ -81,7 +81,11 @@ type Req struct {
 	DB    []Series  `json:"db"`
 	Parks []string  `json:"parks"`
 	Fail  *Fail     `json:"fail,omitempty"`
+	// k >= 1: the CLIENT of this request goes away while the request is parked at parks[k-1] (net/http cancels the
+	// request's context when it notices); 0: the client waits for the answer
+	CancelAfter int `json:"cancel_after,omitempty"`
 	// observations
+	Cancelled bool        `json:"cancelled,omitempty"`
 	Query   string      `json:"query,omitempty"`
 	Status  int         `json:"status"`
 	ErrMsg  string      `json:"err_msg,omitempty"`
@@ -141,6 +145,9 @@ type reqState struct {
 	ctx     context.Context
 	started bool
 	ans     chan answer
+	cancel      context.CancelFunc
+	handlerDone chan struct{}
+	cancelled   bool
 }
 type answer struct {
 	status int
@@ -483,12 +490,13 @@ func setup() {
 		// the controller calls Storage.SetOidAndDB(ctx) before anything of this request can park
 		b.event(Ev{E: "set", R: i})
 		app.ServeHTTP(w, r.WithContext(ctx))
+		close(b.rs[i].handlerDone)
 	})
 	srv = httptest.NewServer(h)
 }
 
-func get(i int, url string) answer {
-	req, err := http.NewRequest("GET", url, nil)
+func get(ctx context.Context, i int, url string) answer {
+	req, err := http.NewRequestWithContext(ctx, "GET", url, nil)
 	if err != nil {
 		return answer{err: err}
 	}
@@ -623,11 +631,12 @@ func runOverlap(c *Case) {
 	b := &backend{c: c, abortCh: make(chan struct{})}
 	for i := range c.Reqs {
 		rq := &c.Reqs[i]
-		rq.Looks, rq.Got, rq.Status, rq.ErrMsg = []Look{}, []OutSeries{}, 0, ""
+		rq.Looks, rq.Got, rq.Status, rq.ErrMsg, rq.Cancelled = []Look{}, []OutSeries{}, 0, "", false
 		rq.Query = selectorText(rq.Ms)
 		rq.Want = want(rq)
 		rq.WantErr = rq.Fail != nil && failReached(rq)
-		b.rs = append(b.rs, &reqState{idx: i, parks: rq.Parks, reached: make(chan string, 1), resume: make(chan struct{}), ans: make(chan answer, 1)})
+		b.rs = append(b.rs, &reqState{idx: i, parks: rq.Parks, reached: make(chan string, 1), resume: make(chan struct{}), ans: make(chan answer, 1),
+			handlerDone: make(chan struct{})})
 	}
 	curMtx.Lock()
 	cur = b
@@ -640,13 +649,45 @@ func runOverlap(c *Case) {
 		rs := b.rs[r]
 		if !rs.started {
 			rs.started = true
-			go func(i int, url string) { b.rs[i].ans <- get(i, url) }(r, urlOf(&c.Reqs[r]))
+			cctx, cancel := context.WithCancel(context.Background())
+			rs.cancel = cancel
+			defer cancel()
+			go func(i int, url string) { b.rs[i].ans <- get(cctx, i, url) }(r, urlOf(&c.Reqs[r]))
 		} else {
 			rs.resume <- struct{}{}
 		}
+		var ansCh chan answer
+		var doneCh chan struct{}
+		if rs.cancelled {
+			doneCh = rs.handlerDone // the client is gone: the request is over when its handler has returned
+		} else {
+			ansCh = rs.ans
+		}
 		select {
 		case <-rs.reached:
-		case a := <-rs.ans:
+			b.mtx.Lock()
+			parkIdx := rs.next
+			b.mtx.Unlock()
+			if k := c.Reqs[r].CancelAfter; k >= 1 && k == parkIdx && !rs.cancelled {
+				// the client goes away; net/http notices the closed connection and cancels the request's context
+				rs.cancel()
+				<-rs.ans
+				b.mtx.Lock()
+				ctx := rs.ctx
+				b.mtx.Unlock()
+				select {
+				case <-ctx.Done():
+					rs.cancelled = true
+					c.Reqs[r].Cancelled = true
+					c.Reqs[r].Status = -1
+					b.event(Ev{E: "end", R: r})
+				case <-time.After(wait):
+					c.Err = fmt.Sprintf("request %d: the server did not notice that its client went away", r)
+				}
+			}
+		case <-doneCh:
+			finished[r] = true
+		case a := <-ansCh:
 			finished[r] = true
 			parseAnswer(&c.Reqs[r], a)
 			// net/http cancels the request's context when its handler has returned
@@ -675,7 +716,17 @@ func runOverlap(c *Case) {
 	b.mtx.Unlock()
 	close(b.abortCh)
 	for r, rs := range b.rs {
-		if rs.started && !finished[r] {
+		if rs.started && !finished[r] && rs.cancelled {
+			select {
+			case <-rs.handlerDone:
+				if c.Err == "" {
+					c.Err = fmt.Sprintf("schedule ended before request %d did", r)
+				}
+			case <-time.After(wait):
+				c.Err = fmt.Sprintf("request %d never answered", r)
+				stuck = true
+			}
+		} else if rs.started && !finished[r] {
 			select {
 			case a := <-rs.ans:
 				parseAnswer(&c.Reqs[r], a)
@@ -765,6 +816,9 @@ func classify(c *Case) {
 		}
 	}
 	for i := range c.Reqs {
+		if c.Reqs[i].Cancelled {
+			addClass(c, "client-went-away")
+		}
 		if c.Reqs[i].WantErr {
 			addClass(c, "stream-fails/"+c.Reqs[i].Fail.Stmt)
 		}
@@ -840,6 +894,9 @@ func genReq(r *rand.Rand, i int) Req {
 	}
 	if nlab > 0 && r.Intn(2) == 0 {
 		rq.Parks = append(rq.Parks, fmt.Sprintf("lrow:%d", r.Intn(nlab+1)))
+	}
+	if len(rq.Parks) > 0 && r.Intn(5) == 0 {
+		rq.CancelAfter = 1 + r.Intn(len(rq.Parks))
 	}
 	if r.Intn(6) == 0 && nrows > 0 {
 		if r.Intn(2) == 0 {
